@@ -69,7 +69,12 @@ class MS:
             if not c.login(USER).ok:
                 raise HarnessProtocolError('login failed')
             mbx = b'Other' if k < len(others) and others[k] else b'INBOX'
-            res = c.select(mbx, learn=learn)
+            # some sessions hold a read-only selection: what they try to
+            # change is refused, what they are told must be just as right
+            ro = (case.get('examine') or [])[k:k + 1] == [True]
+            if ro:
+                self.labels.append('examine-session')
+            res = c.select(mbx, examine=ro, learn=learn)
             if not res.ok:
                 raise HarnessProtocolError('select failed')
             self.clients.append(c)
